@@ -89,7 +89,7 @@ func (e *Engine) hbAccess(key interface{}, write bool, where string) {
 	// accesses performed by harness and model code (zz_verif files, the intrinsics
 	// package) are not monitored: the third-party services they stand for are
 	// internally synchronised; repository code is always monitored
-	if where == "" && e.curInstr != nil && e.curInstr.Parent() != nil && !e.preemptHereFn(e.curInstr.Parent()) {
+	if where == "" && e.curInstr != nil && e.curInstr.Parent() != nil && e.isHarnessFn(e.curInstr.Parent()) {
 		return
 	}
 	h, ok := e.cells[key]
@@ -133,7 +133,9 @@ func (e *Engine) race(a, b *access, bWrite bool) {
 	if y < x {
 		x, y = y, x
 	}
-	msg := fmt.Sprintf("data race between %s and %s", x, y)
+	// the label names the two functions; the exact positions go to the message
+	msg := fmt.Sprintf("data race between %s and %s", stripPos(x), stripPos(y))
+	detail := x + " / " + y
 	if !e.racesSeen[msg] {
 		e.racesSeen[msg] = true
 		if e.inClassify {
@@ -143,6 +145,13 @@ func (e *Engine) race(a, b *access, bWrite bool) {
 		class := e.classifyEvent()
 		_, model := e.check(TrueT, true)
 		e.inClassify = false
-		e.addFinding("race", msg, class, fmt.Sprintf("T%d [%s] vs T%d [%s]", a.tid, a.stack, b.tid, e.stackStr()), model)
+		e.addFinding("race", msg, class, fmt.Sprintf("%s; T%d [%s] vs T%d [%s]", detail, a.tid, a.stack, b.tid, e.stackStr()), model)
 	}
+}
+
+func stripPos(s string) string {
+	if i := strings.LastIndex(s, " ("); i > 0 && strings.HasSuffix(s, ")") {
+		return s[:i]
+	}
+	return s
 }
